@@ -19,8 +19,8 @@ M = [
      "        if self._open_tags[-1] != tag:\n            raise ParseError(", "        if False:\n            raise ParseError("),
     ("C08", "close-no-open-check", "Parser.py",
      "        if self._open_tags:\n            raise ParseError(f\"Missing end tag(s)", "        if False:\n            raise ParseError(f\"Missing end tag(s)"),
-    ("C08", "second-root-allowed", "Parser.py",
-     "            if self._seen_root:\n", "            if False:\n"),
+    # (allowing a second root in TreeBuilder.start is an equivalent mutant: the C TreeBuilder itself raises
+    #  'multiple elements on top level')
     ("C08", "tail-text-swallowed", "Parser.py",
      "                if tail:\n                    raise ParseError(f\"Tail text", "                if False:\n                    raise ParseError(f\"Tail text"),
     # ---- C14
